@@ -102,7 +102,7 @@ Print Assumptions C14_client_unguarded_stuck.
 
 (* Client, with the scopes of the CURRENT source: an SMTP or LMTP delivery attempt
    (tls_immediately / STARTTLS / AUTH / PIPELINING on or off, any number of recipients,
-   accepted or all refused) returns within
+   accepted or all refused, EHLO accepted or refused with 500 -> HELO fallback) returns within
    connect_timeout + (#command stages) * command_timeout + data_timeout. *)
 Theorem C14_client_bound_table :
   forall (a : acfg) (cfg : ccfg) (ds : list (option N)),
